@@ -466,6 +466,17 @@ func init() {
 	}
 	nativeMods["bytes.(*Buffer).Next"] = readMods
 
+	// Reset empties the buffer: in the absolute-position model the read position jumps to the write position.
+	nativeStubs["bytes.(*Buffer).Reset"] = func(v *Verifier, st *State, in ssa.Instruction, c *ssa.CallCommon, args []Value, retT types.Type) Value {
+		ref := refOf(args[0])
+		v.checkSite(st, in, "nil", "(not (= "+ref+" 0))", "Reset on a nil *bytes.Buffer")
+		v.bumpBufver(st, ref)
+		b := v.bufGet(st, ref)
+		v.bufSetR(st, ref, b.w)
+		return Value{}
+	}
+	nativeMods["bytes.(*Buffer).Reset"] = readMods
+
 	nativeStubs["bytes.(*Buffer).Len"] = func(v *Verifier, st *State, in ssa.Instruction, c *ssa.CallCommon, args []Value, retT types.Type) Value {
 		ref := refOf(args[0])
 		v.checkSite(st, in, "nil", "(not (= "+ref+" 0))", "Len on a nil *bytes.Buffer")
